@@ -10,7 +10,7 @@
      no module with a per-thread cache that is not scan-scoped;
    - history_independence_contiguous / _block : the same for any rules, under the
      guard / except the cells that the remaining finding is about (per-thread caches
-     of pe, elf, macho, dex, crx, magic, cuckoo);
+     of the modules for which the generated tl_scan_scoped is false);
    - history_independence_refuted : without that restriction the statement is false
      in the model (two witnesses). *)
 From Coq Require Import List String NArith ZArith Bool Lia.
@@ -363,10 +363,10 @@ Definition leaks (h : list op) (i : N) (c : cell) : Prop :=
   probe_of R_all h i (run R_all h fresh) c <> probe_of R_all h i (spec_persist h) c.
 
 (* per-thread caches that are not scan-scoped, filled by any scan on the thread, are visible to a block scanner *)
-Lemma leak_tl_block : leaks [OOther eff_tl; OIntoBlocks] 3 (CTL tl_pe_IMPHASH_CACHE).
+Lemma leak_tl_block : leaks [OOther eff_tl; OIntoBlocks] 3 (CTL tl_cuckoo_LOCAL_DATA).
 Proof. repeat split; vm_compute; congruence. Qed.
-(* ... and to a contiguous scan whose output for that module is supplied by the user ("pe" has length 2) *)
-Lemma leak_tl_user_output : leaks [OOther eff_tl; OSetModuleOutput 2] 3 (CTL tl_pe_IMPHASH_CACHE).
+(* ... and to a contiguous scan whose output for that module is supplied by the user ("cuckoo" has length 6) *)
+Lemma leak_tl_user_output : leaks [OOther eff_tl; OSetModuleOutput 6] 3 (CTL tl_cuckoo_LOCAL_DATA).
 Proof. repeat split; vm_compute; congruence. Qed.
 
 Theorem history_independence_refuted : ~ history_independence_stmt.
@@ -430,7 +430,7 @@ Definition whole_file_undefined_all_caches_stmt : Prop :=
 Theorem whole_file_undefined_all_caches_refuted : ~ whole_file_undefined_all_caches_stmt.
 Proof.
   intros H.
-  assert (X := H R_all [OOther eff_tl; OIntoBlocks] 3 eq_refl eq_refl eq_refl tl_pe_IMPHASH_CACHE eq_refl).
+  assert (X := H R_all [OOther eff_tl; OIntoBlocks] 3 eq_refl eq_refl eq_refl tl_cuckoo_LOCAL_DATA eq_refl).
   vm_compute in X. discriminate X.
 Qed.
 
